@@ -78,6 +78,10 @@ func RandomNetwork(rng *rand.Rand, mode string) *consensus.Network {
 	if mode == "legacy" {
 		n.HardforkV2.EphemeralOutputHeight = n.HardforkV2.AllowHeight + uint64(2+rng.Intn(8))
 	}
+	if mode == "legacy-long" {
+		// the legacy ephemeral window stays open for the whole generated chain
+		n.HardforkV2.EphemeralOutputHeight = n.HardforkV2.AllowHeight + 100000
+	}
 	return n
 }
 
